@@ -195,8 +195,13 @@ def run(ctx: Ctx):
     _dispatch(ctx, model, base, msg)
     _search(ctx, model, base, msg)
     no_hidden_state(ctx, "C02-R7", [msg.methods["from_bytes"], base.funcs["_traverse_avp_tree"],
-                                    hdr.methods["from_bytes"]], {"all_commands"})
+                                    hdr.methods["from_bytes"]]
+                    + [m for m in (msg.methods.get("as_bytes"), hdr.methods.get("as_bytes"),
+                                   hdr.methods.get("as_packed")) if m is not None],
+                    {"all_commands"})
     _typed_sequence(ctx, model, base)
+    from .common_codec import as_bytes_encodes_current
+    as_bytes_encodes_current(ctx, "C02-R11")
 
 
 def _typed_sequence(ctx: Ctx, model, base):
